@@ -29,7 +29,10 @@ import EdsProps.C10
     4  `C04_active_serves_rest` (iff), `C04_active_serves_rest_cands`
     5  `C04_unknown_inert`
     6  `C04_label_scope`, `C04_label_on`,
-       `C04_label_off`, `C04_label_off_cond`
+       `C04_label_off`, `C04_label_off_cond` [hyp `hok`, ADDED with the F15 repair: `ManageDeployment` does
+       not return its early error.  Necessary: since the repair that sync is no longer an early return
+       (`earlyErr = false`), it writes a status with ReconcileError=True but patches no label — see the
+       counterexample `cxStore04` at the end of this file]
   All at full strength; no `_partial` theorem in this file.
 -/
 namespace Eds
@@ -262,8 +265,11 @@ theorem C04_created_node_listed (h : ersOwner rs st = some d)
     have hkey : (ni, none) ∈ (ersParams released d rs items (ersPods d st) now).byNode := by
       rcases ersRole_cases d rs.name with hr | hr | hr
       · rw [hr] at hs
-        obtain ⟨hm, -, -, -⟩ := ersStrategy_active hs F.status
-        exact (C01_create_only_empty_byNode _ now now false r hm ni hni).1
+        rcases ersStrategy_active hs F.status with ⟨hm, -, -, -⟩ | ⟨-, hre, -, -, -⟩
+        · exact (C01_create_only_empty_byNode _ now now false r hm ni hni).1
+        · -- early error of ManageDeployment: nothing is created
+          rw [hre] at hni
+          exact (mem_nil_elim (ersErrResult_empty _ now).1 hni).elim
       · rw [hr] at hs
         obtain ⟨r0, hm, hr0, -, -, -⟩ := ersStrategy_canary hs
         have hni' : ni ∈ r0.createE := by rw [hr0] at hni; exact hni
@@ -294,8 +300,16 @@ theorem C04_active_avoids_list (h : ersOwner rs st = some d) (hr : ersRole d rs.
       fun x hx => (mem_nil_elim hno.1 hx).elim⟩
   · have hs := F.strat
     rw [hr] at hs
-    obtain ⟨hm, -, -, -⟩ := ersStrategy_active hs F.status
     rw [F.eq]
+    rcases ersStrategy_active hs F.status with ⟨hm, -, -, -⟩ | ⟨-, hre, hadds, hrem, -⟩
+    case inr =>
+      -- early error of ManageDeployment: no pod write at all
+      subst hre hadds hrem
+      have hno := ersFinish_errResult_noPodWrite rs (ersRole d rs.name) (ersFreq d)
+        (ersParams released d rs items (ersPods d st) now) (ersParams released d rs items (ersPods d st) now)
+        se st0 aff now
+      exact ⟨fun x hx => (mem_nil_elim hno.2.2.2.2 hx).elim, fun x hx => (mem_nil_elim hno.2.2.2.1 hx).elim,
+        fun x hx => (mem_nil_elim hno.1 hx).elim⟩
     refine ⟨?_, ?_, ?_⟩
     · intro x hx
       obtain ⟨ni, hni, rfl⟩ := ersFinish_creates_sub _ _ _ _ _ _ _ _ _ _ _ x hx
@@ -480,9 +494,14 @@ theorem C04_label_scope (h : ersOwner rs st = some d) :
     rw [F.eq, ersFinish_labelAdds, ersFinish_labelRemoves]
     rcases ersRole_cases d rs.name with hr | hr | hr
     · rw [hr] at hs
-      obtain ⟨-, hadds, hrem, -⟩ := ersStrategy_active hs F.status
+      have hadds : adds = [] := by
+        rcases ersStrategy_active hs F.status with ⟨-, ha, -, -⟩ | ⟨-, -, ha, -, -⟩ <;> exact ha
       refine ⟨fun x hx => (mem_nil_elim hadds hx).elim, ?_, fun _ => hadds, fun hne => absurd hr hne⟩
       intro name hn
+      rcases ersStrategy_active hs F.status with ⟨-, -, hrem, -⟩ | ⟨-, -, -, hrem, -⟩
+      case inr =>
+        -- early error of ManageDeployment: no label is removed
+        exact (mem_nil_elim hrem hn).elim
       rw [hrem] at hn
       split at hn
       · obtain ⟨p, hp, rfl⟩ := List.mem_map.mp hn
@@ -568,10 +587,17 @@ theorem C04_label_on (h : ersOwner rs st = some d) (hr : ersRole d rs.name = "ca
 /-- **Label off.**  In a full active sync within five minutes of the rolling update's start, every
 pod of the namespace carrying the EDS's name label, this replica set's name label and the canary
 label is unlabelled.  (The EDS-label requirement is the repaired list selector of the clean-up; it
-is what makes `C12_ers_writes_owned` hold for `labelRemoves`.) -/
+is what makes `C12_ers_writes_owned` hold for `labelRemoves`.)
+
+STATEMENT CHANGED with the F15 repair: hypothesis `hok` (the rolling-update parameters parse, i.e.
+`ManageDeployment` does not return its early error) is new.  Before the repair that case was an early
+return, excluded by `he`; now the sync goes on, writes the status with ReconcileError=True and patches
+no label, so without `hok` the statement is false (counterexample `cxStore04` below). -/
 theorem C04_label_off (h : ersOwner rs st = some d) (hr : ersRole d rs.name = "active")
     (hd : isDefaulted d.strategy d.templateName = true) (hg : ersGated d rs now = false)
     (he : (reconcileErs rs st released aff now).earlyErr = false)
+    (hok : ∀ items, ersNodeItems d rs st = some items →
+      ∀ msg, manageDeployment (ersParams released d rs items (ersPods d st) now) now now false ≠ .err msg)
     (ht : now - rollingUpdateStartTime rs.status now < 5 * minute)
     (p : Pod) (hp : p ∈ st.pods) (hns : p.ns = rs.ns)
     (hcl : SMap.get? p.labels K.canaryLabel = some "true")
@@ -581,15 +607,19 @@ theorem C04_label_off (h : ersOwner rs st = some d) (hr : ersRole d rs.name = "a
   obtain ⟨items, r, adds, removes, se, st0, F⟩ := reconcileErs_full rs st released aff now d h hd hg he
   have hs := F.strat
   rw [hr] at hs
-  obtain ⟨-, -, hrem, -⟩ := ersStrategy_active hs F.status
+  rcases ersStrategy_active hs F.status with ⟨-, -, hrem, -⟩ | ⟨⟨msg, hmsg⟩, -, -, -, -⟩
+  case inr => exact absurd hmsg (hok items F.hitems msg)
   rw [F.eq, ersFinish_labelRemoves, hrem, if_pos ht]
   exact List.mem_map.mpr ⟨p, mem_canaryLabelled.mpr ⟨hp, hns, hcl, hers, heds⟩, rfl⟩
 
 /-- … in terms of the stored Active condition: it is True and its last transition is less than five
-minutes old (or the condition is absent / not True: the rolling update starts now). -/
+minutes old (or the condition is absent / not True: the rolling update starts now).
+STATEMENT CHANGED with the F15 repair: hypothesis `hok` is new, as in `C04_label_off`. -/
 theorem C04_label_off_cond (h : ersOwner rs st = some d) (hr : ersRole d rs.name = "active")
     (hd : isDefaulted d.strategy d.templateName = true) (hg : ersGated d rs now = false)
     (he : (reconcileErs rs st released aff now).earlyErr = false)
+    (hok : ∀ items, ersNodeItems d rs st = some items →
+      ∀ msg, manageDeployment (ersParams released d rs items (ersPods d st) now) now now false ≠ .err msg)
     (ht : ∀ c, findCond rs.status.conds "Active" = some c → c.status = "True" →
           now - c.lastTransition < 5 * minute)
     (p : Pod) (hp : p ∈ st.pods) (hns : p.ns = rs.ns)
@@ -597,7 +627,7 @@ theorem C04_label_off_cond (h : ersOwner rs st = some d) (hr : ersRole d rs.name
     (hers : SMap.get? p.labels K.ersNameLabel = some rs.name)
     (heds : SMap.get? p.labels K.edsNameLabel = some d.name) :
     p.name ∈ (reconcileErs rs st released aff now).labelRemoves := by
-  refine C04_label_off rs st released aff now d h hr hd hg he ?_ p hp hns hcl hers heds
+  refine C04_label_off rs st released aff now d h hr hd hg he hok ?_ p hp hns hcl hers heds
   unfold rollingUpdateStartTime
   split
   · rename_i c hc
@@ -696,5 +726,34 @@ example : (reconcileErs (exErs04 "d-new" "new")
 example : (reconcileErs (exErs04 "d-new" "new")
     (exStore04 [exPod04 "new-1" "n1" "d-new" "new" true, exPod04 "old-2" "n2" "d-old" "old"] false)
     (fun _ => true) true 100).labelRemoves = ["new-1"] := by decide
+
+/-! ### Why `hok` in `C04_label_off` (F15 repair).  A *defaulted* strategy only needs `maxUnavailable` to
+be set, not to parse.  With a kind that is neither "int" nor "pct" `ManageDeployment` returns its early
+error; since the repair the sync is then a full one (`earlyErr = false`) that writes
+ReconcileError=True, but it patches no label: every other hypothesis of `C04_label_off` holds and the
+conclusion fails. -/
+
+def cxStrategy04 : Strategy :=
+  { exStrategy04 with
+    rollingUpdate := { (exStrategy04).rollingUpdate with maxUnavailable := some ⟨"bad", 1⟩ } }
+
+def cxEds04 : EDS := { exEds04 false with strategy := cxStrategy04 }
+
+def cxStore04 : ErsStore :=
+  { exStore04 [exPod04 "new-1" "n1" "d-new" "new" true] false with edss := [cxEds04] }
+
+example : ersOwner (exErs04 "d-new" "new") cxStore04 = some cxEds04 ∧
+    ersRole cxEds04 (exErs04 "d-new" "new").name = "active" ∧
+    isDefaulted cxEds04.strategy cxEds04.templateName = true ∧
+    ersGated cxEds04 (exErs04 "d-new" "new") 100 = false ∧
+    (reconcileErs (exErs04 "d-new" "new") cxStore04 (fun _ => true) true 100).earlyErr = false ∧
+    (100 : Int) - rollingUpdateStartTime (exErs04 "d-new" "new").status 100 < 5 * minute ∧
+    exPod04 "new-1" "n1" "d-new" "new" true ∈ cxStore04.pods ∧
+    (exPod04 "new-1" "n1" "d-new" "new" true).ns = (exErs04 "d-new" "new").ns ∧
+    SMap.get? (exPod04 "new-1" "n1" "d-new" "new" true).labels K.canaryLabel = some "true" ∧
+    SMap.get? (exPod04 "new-1" "n1" "d-new" "new" true).labels K.ersNameLabel = some "d-new" ∧
+    SMap.get? (exPod04 "new-1" "n1" "d-new" "new" true).labels K.edsNameLabel = some cxEds04.name ∧
+    (reconcileErs (exErs04 "d-new" "new") cxStore04 (fun _ => true) true 100).labelRemoves = [] ∧
+    (reconcileErs (exErs04 "d-new" "new") cxStore04 (fun _ => true) true 100).noPodWrite := by decide
 
 end Eds
